@@ -224,7 +224,7 @@ Qed.
 Theorem led_step s l s' : Inv s -> Led s -> cloud_ok l -> step s l = Some s' -> Led s'.
 Proof.
   intros HI HL Hc Hs. destruct l; cbn [step] in Hs.
-  - (* reject *) break_step Hs; inversion Hs; subst; exact HL.
+  - (* reject *) break_step Hs; inversion Hs; subst; try exact HL; clear Hs; destruct HL as [L4 L6 Ll La Ln]; open_slot s; constructor; cbn in *; assumption.
   - (* direct *) break_step Hs; inversion Hs; subst; clear Hs; destruct HL as [L4 L6 Ll La Ln];
       pose proof (fam_ok_set_owner c4 pod _ L4) as A4; pose proof (fam_ok_set_owner c6 pod _ L6) as A6;
       open_slot s; cbn in *; constructor; cbn; assumption.
